@@ -93,6 +93,7 @@ func main() {
 			}
 			cases = append(cases, names.RichC12(r, n)...)
 			cases = append(cases, names.CaptureC12(r, m)...)
+			cases = append(cases, names.F13Case())
 		default:
 			must(fmt.Errorf("unknown -prop %s", *prop))
 		}
